@@ -22,7 +22,10 @@ Verdict ==
            ELSE IF o.run \in {"err13", "panic"} THEN Line("MISMATCH")  \* accepted, then a kind error at run time
            ELSE Line("AGREE"))
         ELSE \* ill-kinded: must be rejected, as a type error, in that statement
-          (IF o.verdict = "reject" /\ o.family \in {"TypeMismatch", "ArgumentTypeMismatch"} /\ o.rowok THEN Line("AGREE")
+          \* (where the position wants a VARIABLE - the counter of a FOR loop - "variable required" is the matching family too)
+          (IF o.verdict = "reject" /\ o.rowok /\
+              o.family \in ({"TypeMismatch", "ArgumentTypeMismatch"} \cup (IF "lvalue" \in DOMAIN r.s /\ r.s.lvalue THEN {"VariableRequired"} ELSE {}))
+           THEN Line("AGREE")
            ELSE Line("MISMATCH")))
      ELSE
        (IF o.verdict = "reject" /\ o.family \in Families(r.edit) /\ o.rowok THEN Line("AGREE") ELSE Line("MISMATCH"))
